@@ -42,7 +42,7 @@ RULE = (
     "the copy accepts a new edge, and the same few structural mutations applied to the original and to the copy keep them isomorphic; dumps never raises.  Size/depth family: chains, rings, grids, stars, cliques of "
     "120-3000 vertices serialised with the recursion limit lowered to current depth + 120..250 (graph far deeper "
     "than the limit).  Extra phase: blobs + expected forms are handed to a fresh interpreter (flag on and off, "
-    "pickle and dill).  A quarter of the world cases also dump, with default arguments, a graph over a FUNCTION-LOCAL vertex class right after an unrelated dumps() call that spelled dill's byref / recurse / fmode options out (every call stands alone).  In the size family caches are optionally warmed with filter objects that themselves hold a vertex (functools.partial, bound method).  Worlds may contain generic n-ended Link objects (_force_creation=True).  Non-trivial = the reachable graph has a cycle through >= 2 object kinds and (a shared "
+    "pickle and dill).  Attribute values include compiled regular expressions, complex numbers, dates, Decimals, Fractions and ranges.  A quarter of the world cases also dump, with default arguments, a graph over a FUNCTION-LOCAL vertex class right after an unrelated dumps() call that spelled dill's byref / recurse / fmode options out (every call stands alone).  In the size family caches are optionally warmed with filter objects that themselves hold a vertex (functools.partial, bound method).  Worlds may contain generic n-ended Link objects (_force_creation=True).  Non-trivial = the reachable graph has a cycle through >= 2 object kinds and (a shared "
     "container or >= 2 universes); big cases are non-trivial when n >= 10 x the recursion headroom/ 4; distinct = "
     "distinct case value."
 )
